@@ -4,7 +4,7 @@ from harness.core import Task
 from harness import loader
 import time
 from harness.core import Task, OR, PROVED, REFUTED
-from contracts import scanners, rx_lex, readerblocks
+from contracts import scanners, rx_lex, readerblocks, masking
 from contracts.common import *
 
 PROP = "C02"
@@ -19,7 +19,13 @@ def build(tier, seed):
         c.search_fn = lambda: c02.search(seed)
         return c
     _cont.__name__ = "continuation_block"
-    tasks = [a_task(PROP, scanners.unterminated), a_task(PROP, scanners.quote_split), a_task(PROP, scanners.literal_end), a_task(PROP, _cont)]
+    def _pb():
+        from bounded import c02
+        c = readerblocks.pass_back(PROP)
+        c.search_fn = lambda: c02.lookahead_cases()
+        return c
+    _pb.__name__ = "pass_back"
+    tasks = [a_task(PROP, _pb), a_task(PROP, scanners.unterminated), a_task(PROP, scanners.quote_split), a_task(PROP, scanners.literal_end), a_task(PROP, _cont)]
 
     def bd():
         from bounded import c02
@@ -46,15 +52,19 @@ def build(tier, seed):
             rd = loader.import_repo("ford.reader")
             return rx_lex.comment_regex_obligations(PROP, "ford.reader._compile_docmark", rd._compile_docmark(m), m)
         tasks.append(Task(f"{PROP}.B.docmark[{m}]", PROP, "ford.reader._compile_docmark", dm))
+    def _mask():
+        from bounded import c02
+        return masking.obligations(PROP, "ford.sourceform", c02.parser_literal_cases)
+    tasks.append(Task(f"{PROP}.S.masking", PROP, "literal masking loops", _mask))
     tasks.append(Task(f"{PROP}.B.QUOTES_RE", PROP, "ford.sourceform.QUOTES_RE", lambda: rx_lex.quotes_re_obligations(PROP)))
     meta = {
         "trusted_base": TRUSTED_BASE,
         "assumptions": PYVC_ASSUMPTIONS + REVC_ASSUMPTIONS,
-        "functions_under_contract": fn_meta([("ford.reader", "_contains_unterminated_string", None), ("ford.utils", "quote_split", None),
+        "functions_under_contract": fn_meta([("ford.reader", "_contains_unterminated_string", None), ("ford.utils", "quote_split", None), ("ford.reader", "FortranReader.pass_back", None),
                                              ("ford.reader", "FortranReader.__next__", "block contract: `if len(line) == 0:` ... `linebuffer += line` inside `while not done` "
                                               "(continuation joining); inputs line (stripped), continued, linebuffer")]) +
         [{"constant": "ford.reader.FortranReader.COM_RE"}, {"constant": f"ford.reader._compile_docmark(m) for m in {MARKERS}"},
-         {"constant": "ford.sourceform.QUOTES_RE"}],
+         {"constant": "ford.sourceform.QUOTES_RE"}, {"loops": "every `while QUOTES_RE.search(X[search_from:])` masking / re-insertion loop of ford/sourceform.py"}],
         "unverified_surroundings": ["FortranReader.__next__ as a whole (composition of its blocks)", "include handling", "preprocessor",
                                     "fixed-form entry (C14)", "FortranContainer.__init__ masking loop composition"],
         "explanation": "Every obligation is a VC generated from the current source of the named function (Engine A) or from CPython's parse of the "
